@@ -173,6 +173,9 @@ def run_property(modname, tier, seed=0, nproc=None, only=None):
         for c in order:
             stop = c.get('split')
             outstanding.append(pool.apply_async(_worker, ((modname, c, None, stop),)))
+        known = load_known()
+        budget = float(os.environ.get('VERIF_BUDGET_S', '1800' if tier == 'quick' else '7200'))
+        stopped = None
         while outstanding:
             nxt = []
             for ar in outstanding:
@@ -184,6 +187,12 @@ def run_property(modname, tier, seed=0, nproc=None, only=None):
                 if r.get('error'):
                     errors.append((r['config'], r['error']))
                     continue
+                # fail fast: a reproduced violation that is not a listed known finding decides the run
+                for c in r.get('candidates', []):
+                    if c.get('reproduced') and not c.get('tentative_known'):
+                        key = '%s|%s' % (c['config'], c['check'])
+                        if not any(f['property'] == pid and fnmatch.fnmatch(key, f['key']) for f in known.get('findings', [])):
+                            stopped = stopped or 'violation found in %s: remaining work cancelled (fail fast)' % c['config']
                 pend = r.get('pending') or []
                 if pend:
                     cfg = by_name[r['config']]
@@ -192,9 +201,17 @@ def run_property(modname, tier, seed=0, nproc=None, only=None):
                     for i in range(0, len(pend), chunk):
                         nxt.append(pool.apply_async(_worker, ((modname, cfg, pend[i:i + chunk], None),)))
             outstanding = nxt
+            if stopped is None and time.time() - t0 > budget:
+                stopped = 'wall-clock budget of %ds exceeded: remaining work cancelled' % budget
+                errors.append(('*', 'TimeBudget: ' + stopped))
+            if stopped is not None and os.environ.get('VERIF_FAILFAST', '1') != '0':
+                pool.terminate()
+                outstanding = []
+                break
             if outstanding:
                 time.sleep(0.05)
-        pool.close()
+        if stopped is None:
+            pool.close()
         pool.join()
     finally:
         shutil.rmtree(scratch, ignore_errors=True)
